@@ -9,6 +9,11 @@ PoolVal3 == (100 :> 3 @@ 101 :> 3 @@ 102 :> 2)
 Pool5 == {100, 101, 102, 103, 104}
 PoolVal5 == (100 :> 3 @@ 101 :> 3 @@ 102 :> 2 @@ 103 :> 1 @@ 104 :> 4)
 
+\* long trunk with a spend every 4th block (TrunkTx): coinbase k-4 -> 200+k
+TrunkPoolIds == {200 + 4 * j : j \in 2..21}
+PoolC == {100, 101, 102} \cup TrunkPoolIds
+PoolValC == [c \in PoolC |-> IF c = 100 \/ c = 101 THEN 3 ELSE IF c = 102 THEN 2 ELSE IF c = 208 THEN 3 ELSE 4]
+
 CONSTANT SimProfile   \* "mixed" | "flags" | "locks" | "plain" | "deep" | "respend" | "nrd": bias of the simulation-only minting
 
 VARIABLE hist      \* observation only: the delivered steps with the projection after each
@@ -17,7 +22,18 @@ mcvars == <<tree, n, ndel, last, hist>>
 Unspent(nd) == {[c |-> nd.u.outs[i].c, h |-> nd.u.outs[i].h] : i \in nd.u.unspent}
 Proj(nd) == [head |-> nd.head, hhead |-> nd.hhead, unspent |-> Unspent(nd), nleaves |-> Len(nd.u.outs),
              orph |-> nd.orph, hdrs |-> nd.hdrs, bodies |-> nd.bodies,
-             bestsums |-> {b \in nd.sums : IsAnc(b, nd.head)}]
+             bestsums |-> {b \in nd.sums : IsAnc(b, nd.head)}, tail |-> nd.tail]
+
+\* Valid() without re-deriving the trunk: every trunk block was accepted by the model's own pipeline at
+\* Init (TrunkStored, conjoined to the simulation Init), and BodiesValid says stored blocks are valid
+TrunkStored == \A k \in 0..Trunk : k \in n.bodies
+RECURSIVE ValidT(_)
+ValidT(b) == IF b <= Trunk THEN TRUE
+             ELSE /\ ValidT(Parent(b)) /\ HeaderOK(b) /\ BodyOK(b)
+                  /\ UtxoOK(Replay(Parent(b)), b)
+                  /\ (IsNrd(tree[b].tx) => NrdOK(NrdHist(Parent(b), NrdKey(tree[b].tx)), b))
+                  /\ LateOK(b)
+ValidIdsT == (0..Trunk) \cup {b \in Ids : b > Trunk /\ ValidT(b)}
 
 \* Simulation-only minting: one random well-formed block per step (RandomElement), biased towards
 \* empty and unflagged blocks so that a good share of every tree is valid.
@@ -27,10 +43,13 @@ BalancedTxs(id, h) == {t \in TxChoices(h) \ {NoTx} :
 \* (random draws are bound with \E over a singleton so that each is evaluated exactly once)
 MintSim ==
   LET id == Cardinality(Ids) IN
-  \E vb \in {{b \in Ids : Valid(b)}} :
+  \E vb \in {ValidIdsT} :
   \E rp \in {RandomElement(1..10)} :
   \E lv \in {CHOOSE b \in vb : \A x \in vb : x <= b} :
-  \E p \in {IF SimProfile = "deep" /\ rp <= 6 THEN RandomElement({b \in Ids : Height(b) <= 4})   \* fork points far below the head
+  \E p \in {IF SimProfile = "compact"
+             THEN (IF rp <= 3 THEN RandomElement({b \in Ids : Height(b) >= Trunk - 8})            \* forks stay above the horizon
+                   ELSE IF rp <= 5 /\ lv > Trunk THEN Parent(lv) ELSE lv)
+             ELSE IF SimProfile = "deep" /\ rp <= 6 THEN RandomElement({b \in Ids : Height(b) <= 4})   \* fork points far below the head
              ELSE IF SimProfile \in {"respend", "nrd"} /\ rp <= 4 /\ lv # 0 THEN Parent(lv)        \* sibling of the latest valid block
              ELSE IF SimProfile \in {"respend", "nrd"} /\ rp <= 9 THEN lv
              ELSE IF rp <= 2 THEN RandomElement(Ids)                                    \* mostly extend the latest valid block
@@ -40,14 +59,22 @@ MintSim ==
   \E f0 \in {IF Flags # {} /\ RandomElement(1..6) <= (IF SimProfile = "flags" THEN 3 ELSE 1) THEN RandomElement(Flags) ELSE "ok"} :
   \E r \in {RandomElement(1..10)} :
   \E bt \in {BalancedTxs(id, Height(p) + 1)} :
-  \E u \in {IF Valid(p) THEN Replay(p) ELSE GenesisU} :
+  \E u \in {IF p \in vb THEN Replay(p) ELSE GenesisU} :
   \E live \in {{u.outs[i].c : i \in u.unspent}} :
   \E mature \in {{u.outs[i].c : i \in {j \in u.unspent : ~u.outs[j].cb \/ u.outs[j].h + Maturity <= Height(p) + 1}}} :
   \E good \in {{t \in bt : t.ins \subseteq mature /\ t.outs \cap live = {} /\ LockH(t) <= Height(p) + 1}} :
   \E edge \in {{t \in bt : (\A c \in t.ins : c < 100) \/ t.lock # 0}} :
   \E fresh \in {{t \in good : t.ins \cap tree[p].tx.outs # {}}} :           \* spends an output created by the parent block
   \E nrdtx \in {{t \in bt : IsNrd(t) /\ NrdKey(t) = 1 /\ t.ins \subseteq mature /\ t.outs \cap live = {}}} :   \* same excess again and again
-  \E t \in {IF SimProfile = "nrd"
+  \E old \in {{t \in good : \E c \in t.ins : \E i \in LeafOf(u, c) : u.outs[i].h + Horizon + 5 < Trunk}} :   \* spends an output from far below the horizon
+  \E stale \in {{t \in bt : \E c \in t.ins : c \notin live /\ \E k \in 1..Trunk : c \in tree[k].tx.ins}} :     \* re-spends an output spent (and pruned) long ago
+  \E t \in {IF SimProfile = "compact"
+             THEN (IF r <= 1 \/ bt = {} THEN NoTx
+                   ELSE IF r <= 5 /\ old # {} THEN RandomElement(old)
+                   ELSE IF r <= 7 /\ good # {} THEN RandomElement(good)
+                   ELSE IF r <= 9 /\ stale # {} THEN RandomElement(stale)
+                   ELSE RandomElement(bt))
+             ELSE IF SimProfile = "nrd"
              THEN (IF r <= 1 \/ bt = {} THEN NoTx
                    ELSE IF r <= 8 /\ nrdtx # {} THEN RandomElement(nrdtx)
                    ELSE IF good # {} THEN RandomElement(good) ELSE NoTx)
@@ -86,14 +113,15 @@ DeliverSim ==
 SimNext == \/ MintSim
            \/ (AllMinted /\ DeliverSim)
            \/ (\E r \in {RandomElement(1..6)} : r = 1 /\ Reopen)
-MCSimSpec == Init /\ hist = <<>> /\ [][SimNext /\ hist' = IF last'.k \in {"ProcessHeader", "ProcessBlock", "Reopen", "SyncHeaders"}
+           \/ (SimProfile = "compact" /\ \E r \in {RandomElement(1..5)} : r = 1 /\ CompactCall)
+MCSimSpec == Init /\ TrunkStored /\ hist = <<>> /\ [][SimNext /\ hist' = IF last'.k \in {"ProcessHeader", "ProcessBlock", "Reopen", "SyncHeaders", "Compact"}
                      THEN Append(hist, [k |-> last'.k, b |-> last'.b, res |-> last'.res, proj |-> Proj(n'),
                                         cnt |-> IF last'.k = "SyncHeaders" THEN last'.cnt ELSE 0])
                      ELSE hist]_mcvars
 
 MCInit == Init /\ hist = <<>>
 MCNext == /\ Next
-          /\ hist' = IF last'.k \in {"ProcessHeader", "ProcessBlock", "Reopen", "SyncHeaders"}
+          /\ hist' = IF last'.k \in {"ProcessHeader", "ProcessBlock", "Reopen", "SyncHeaders", "Compact"}
                      THEN Append(hist, [k |-> last'.k, b |-> last'.b, res |-> last'.res, proj |-> Proj(n'),
                                         cnt |-> IF last'.k = "SyncHeaders" THEN last'.cnt ELSE 0])
                      ELSE hist
@@ -105,10 +133,14 @@ RecentParents == \A b \in Ids : b > Trunk => tree[b].parent >= Trunk - 1
 
 Done == AllMinted /\ ndel = MaxDeliveries
 Behaviour == [trunk |-> Trunk, pool |-> [c \in Pool |-> PoolVal[c]], tree |-> [b \in Ids |-> tree[b]], steps |-> hist,
-              valid |-> ValidIds, works |-> [b \in Ids |-> Work(b)]]
+              valid |-> ValidIdsT, works |-> [b \in Ids |-> Work(b)]]
 Emit == Done => PrintT(<<"CHAINBEH", ToJson(Behaviour)>>)
 
 \* the action properties restated over mcvars
 MCHeadMonotone == [][n'.head # n.head => Work(n'.head) > Work(n.head)]_mcvars
-MCRejectLeavesState == [][(n'.head = n.head) => BestProj(n') = BestProj(n)]_mcvars
+MCRejectLeavesState == [][(n'.head = n.head /\ last'.k # "Compact") => BestProj(n') = BestProj(n)]_mcvars
+MCCompactIsStutter == [][last'.k = "Compact" =>
+                         /\ n'.head = n.head /\ n'.hhead = n.hhead /\ n'.u = n.u /\ n'.opos = n.opos
+                         /\ n'.nrd = n.nrd /\ n'.hdrs = n.hdrs /\ n'.orph = n.orph
+                         /\ n'.tail >= n.tail /\ n'.head \in n'.bodies]_mcvars
 =========================================================================
